@@ -254,7 +254,7 @@ func c16Revoke(c *eng.Ctx, V, vq string) {
 		return
 	}
 	put := c16One(c, f, "Storage.Put of the revocation record", c16Put)
-	rebuild := c16One(c, f, "crlBuilder.rebuild", `^pki\.\(\*crlBuilder\)\.rebuild$`)
+	rebuild, rebuildInner := c16Forwarded(c, f, "crlBuilder.rebuild", `^pki\.\(\*crlBuilder\)\.rebuild$`)
 	wal := c16One(c, f, "writeRevocationDeltaWALs", `^pki\.writeRevocationDeltaWALs$`)
 	fri := c16One(c, f, "fetchRevocationInfo", `^pki\.\(\*storageContext\)\.fetchRevocationInfo$`)
 	if put == nil || rebuild == nil || wal == nil || fri == nil {
@@ -326,8 +326,8 @@ func c16Revoke(c *eng.Ctx, V, vq string) {
 		c16ErrPropagated(c, f, wal, 1)
 	}
 	c.Clause("R12", "C16.1")
-	if a := rebuild.Common().Args; len(a) == 3 {
-		c.Prov(f, "storage context rebuilt", rebuild, a[1], `^param:sc$`)
+	if a := rebuildInner.Common().Args; len(a) == 3 {
+		c.Prov(rebuildInner.Parent(), "storage context rebuilt", rebuildInner, a[1], `^param:sc$`, `^freevar:sc$`)
 	}
 
 	// ---- C16.4 idempotent
@@ -398,6 +398,107 @@ func c16Revoke(c *eng.Ctx, V, vq string) {
 			}
 		}
 	}
+}
+
+// c16CompleteBuild: the call in _doRebuild that builds the complete CRLs: buildCRLs(sc, forceNew), or
+// (wrapper inlined) buildAnyCRLs(sc, forceNew, false). Both take (sc, forceNew) first.
+func c16CompleteBuild(c *eng.Ctx, f *ssa.Function) ssa.CallInstruction {
+	var cs []ssa.CallInstruction
+	cs = append(cs, eng.Calls(f, `^pki\.buildCRLs$`)...)
+	for _, b := range eng.Calls(f, `^pki\.buildAnyCRLs$`) {
+		if a := b.Common().Args; len(a) == 3 && eng.Expr(a[2]) == "false" {
+			cs = append(cs, b)
+		}
+	}
+	if !c.Floor(f, "buildCRLs", len(cs), 1) {
+		return nil
+	}
+	return cs[0]
+}
+
+// c16Forwarded finds the call of callee pattern pat in f. When f does not call it directly but
+// through a local forwarding closure (fn := func() (...) { return X.callee(args) }; fn()), the call
+// of the closure stands for it: the closure must consist of that single call and return its
+// results unchanged. inner is the real call (== call when direct).
+func c16Forwarded(c *eng.Ctx, f *ssa.Function, what, pat string) (call, inner ssa.CallInstruction) {
+	if cs := eng.Calls(f, pat); len(cs) > 0 {
+		c.Floor(f, what, len(cs), 1)
+		return cs[0], cs[0]
+	}
+	for _, cl := range eng.Calls(f, `.`) {
+		callee := cl.Common().StaticCallee()
+		if callee == nil || callee.Parent() != f || len(callee.Blocks) != 1 {
+			continue
+		}
+		in := eng.Calls(callee, pat)
+		rets := eng.Returns(callee)
+		if len(in) != 1 || len(rets) != 1 || len(eng.Calls(callee, `.`)) != 1 {
+			continue
+		}
+		iv, ok := in[0].(ssa.Value)
+		fwd := ok
+		for i, r := range rets[0].Results {
+			ex, isEx := r.(*ssa.Extract)
+			if !(isEx && ex.Tuple == iv && ex.Index == i) && !(len(rets[0].Results) == 1 && r == iv) {
+				fwd = false
+			}
+		}
+		if fwd {
+			c.Floor(f, what, 1, 1)
+			return cl, in[0]
+		}
+	}
+	c.Floor(f, what, 0, 1)
+	return nil, nil
+}
+
+// c16SkipHelper: a call in f, branched on, of a same-package function returning bool that decides by bytes.Equal.
+type c16SkipHelper struct{ Call *ssa.Call }
+
+// c16IssuerSkip: the edges of f on which a revocation record is recognised as one of the issuers' own
+// certificates: the true-edges of a boolean flag {false|true} (set behind bytes.Equal, checked by the
+// caller) and the true-edges of calls of a same-package bool helper whose bytes.Equal calls all compare
+// the Raw encodings of two x509 certificates (a helper comparing anything narrower is not a reviewed skip:
+// its true-edge then counts as a record that was dropped).
+func c16IssuerSkip(f *ssa.Function) ([]eng.Edge, []c16SkipHelper) {
+	edges := eng.CondEdges(f, `^φ\w+\{false\|true\}$`, true)
+	var hs []c16SkipHelper
+	for _, b := range f.Blocks {
+		ifi := eng.IfOf(b)
+		if ifi == nil {
+			continue
+		}
+		cl, ok := eng.Normalize(ifi.Cond).Val.(*ssa.Call)
+		if !ok {
+			continue
+		}
+		callee := cl.Call.StaticCallee()
+		if callee == nil || callee.Pkg == nil || callee.Pkg != f.Pkg || len(callee.Blocks) == 0 {
+			continue
+		}
+		if res := callee.Signature.Results(); res.Len() != 1 || res.At(0).Type().Underlying().String() != "bool" {
+			continue
+		}
+		// it decides by comparing complete certificate encodings (Raw vs Raw) and nothing else
+		eqs := eng.Calls(callee, `^bytes\.Equal$`)
+		whole := len(eqs) > 0
+		for _, e := range eqs {
+			a := e.Common().Args
+			if len(a) != 2 {
+				whole = false
+				continue
+			}
+			_, ok0 := c16CertRawBase(a[0])
+			_, ok1 := c16CertRawBase(a[1])
+			whole = whole && ok0 && ok1
+		}
+		if !whole {
+			continue
+		}
+		edges = append(edges, eng.BoolEdges(cl, true)...)
+		hs = append(hs, c16SkipHelper{cl})
+	}
+	return edges, hs
 }
 
 // c16FlagLoadEdges: edges on which forceRebuild.Load() == want.
@@ -507,7 +608,7 @@ func c16Callers(c *eng.Ctx, V string) {
 func c16Rebuild(c *eng.Ctx) {
 	inPki := func(fn *ssa.Function) bool { return eng.InPkg(fn, "pki") }
 	if f := c.Fn("pki.(*crlBuilder)._doRebuild"); f != nil {
-		build := c16One(c, f, "buildCRLs", `^pki\.buildCRLs$`)
+		build := c16CompleteBuild(c, f)
 		var setTrue, setFalse []ssa.Instruction
 		for _, s := range eng.Calls(f, `^\(\*sync/atomic\.Bool\)\.Store$`) {
 			a := s.Common().Args
@@ -580,13 +681,37 @@ func c16Rebuild(c *eng.Ctx) {
 		"pki.(*crlBuilder)._doRebuild": "cleared right before the build, restored when it fails",
 	}, 1)
 	// who may build
-	sites := c.P.FindCalls(mustStatic(c, "pki.buildCRLs"), nil)
-	c.CallerTable("pki.buildCRLs", sites, map[string]string{"pki.(*crlBuilder)._doRebuild": "the only complete-CRL entry point (holds the builder mutex)"}, 1)
+	// the complete build is entered through buildCRLs, or (wrapper inlined) by _doRebuild itself calling
+	// buildAnyCRLs(sc, forceNew, isDelta=false) under the builder mutex (checked above)
+	var sites []eng.CallSite
+	haveWrapper := c.P.Func("pki.buildCRLs") != nil
+	if haveWrapper {
+		sites = c.P.FindCalls(mustStatic(c, "pki.buildCRLs"), nil)
+		c.CallerTable("pki.buildCRLs", sites, map[string]string{"pki.(*crlBuilder)._doRebuild": "the only complete-CRL entry point (holds the builder mutex)"}, 1)
+	}
 	sites = c.P.FindCalls(mustStatic(c, "pki.buildAnyCRLs"), nil)
 	c.CallerTable("pki.buildAnyCRLs", sites, map[string]string{
-		"pki.buildCRLs": "complete build",
+		"pki.buildCRLs":                                 "complete build",
+		"pki.(*crlBuilder)._doRebuild":                  "complete build without the buildCRLs wrapper (isDelta must be the constant false; mutex held)",
 		"pki.(*crlBuilder).rebuildDeltaCRLsHoldingLock": "delta build, caller holds the builder mutex",
 	}, 2)
+	nDirect := 0
+	for _, st := range sites {
+		if eng.FuncName(eng.TopFunc(st.Fn)) != "pki.(*crlBuilder)._doRebuild" {
+			continue
+		}
+		nDirect++
+		c.Clause("R12", "C16.2")
+		if a := st.Call.Common().Args; len(a) == 3 && eng.Expr(a[2]) == "false" {
+			c.OK(st.Fn, "const{buildAnyCRLs(sc, forceNew, isDelta=false)}", st.Call.Pos(), "_doRebuild builds complete CRLs")
+		} else {
+			c.Violation(st.Fn, "const{buildAnyCRLs(sc, forceNew, isDelta=false)}", st.Call.Pos(), "_doRebuild calls buildAnyCRLs with a non-constant or true isDelta", nil)
+		}
+		c.Clause("R1", "C16.2")
+	}
+	if !haveWrapper && nDirect == 0 {
+		c.Unresolved("pki.buildCRLs")
+	}
 	sites = c.P.FindCalls(mustStatic(c, "pki.(*crlBuilder).rebuildDeltaCRLsHoldingLock"), nil)
 	c.CallerTable("crlBuilder.rebuildDeltaCRLsHoldingLock", sites, map[string]string{
 		"pki.buildAnyCRLs":                           "delta rebuild at the end of a complete build (mutex held by _doRebuild)",
@@ -603,7 +728,7 @@ func c16Rebuild(c *eng.Ctx) {
 			}
 		}
 	}
-	if f := c.Fn("pki.buildCRLs"); f != nil {
+	if f := c.P.Func("pki.buildCRLs"); f != nil {
 		if b := c16One(c, f, "buildAnyCRLs", `^pki\.buildAnyCRLs$`); b != nil {
 			c.Clause("R12", "C16.2")
 			if eng.Expr(b.Common().Args[2]) == "false" {
@@ -1476,11 +1601,24 @@ func c16Builder(c *eng.Ctx, V string) {
 			}
 			if c.Floor(f, "loop over the listed serials", len(body), 1) {
 				// the only legitimate skip: the record is an issuer's own certificate (a boolean flag set behind bytes.Equal)
-				skipIssuer := eng.CondEdges(f, `^φ\w+\{false\|true\}$`, true)
+				// ... or the verdict of a same-package helper that says "true" only behind bytes.Equal)
+				skipIssuer, skipHelpers := c16IssuerSkip(f)
 				for _, e := range skipIssuer {
 					if ph, ok := eng.IfOf(e.From).Cond.(*ssa.Phi); ok {
 						set := eng.PhiEdges(f, eng.VarName(ph), func(v ssa.Value) bool { return eng.Expr(v) == "true" })
 						c.CutEdges(f, "record skipped as an issuer certificate", set, eng.G(f, `^bytes\.Equal\(\)$`, true))
+					}
+				}
+				for _, h := range skipHelpers {
+					hf := h.Call.Call.StaticCallee()
+					var yes []ssa.Instruction
+					for _, r := range eng.Returns(hf) {
+						if eng.Expr(r.Results[0]) != "false" {
+							yes = append(yes, r)
+						}
+					}
+					if c.Floor(hf, "verdict 'is an issuer certificate'", len(yes), 1) {
+						c.Cut(hf, "record judged an issuer certificate", yes, eng.G(hf, `^bytes\.Equal\(\)$`, true), nil)
 					}
 				}
 				next := append(append([]ssa.Instruction{}, header...), finalRet)
@@ -1493,9 +1631,38 @@ func c16Builder(c *eng.Ctx, V string) {
 				// encoding of an issuer certificate. Serial numbers are unique per issuer only, so any
 				// narrower comparison lets a leaf that shares a serial with some issuer drop off every CRL.
 				c.Clause("R5", "C16.6")
-				eqs := eng.Calls(f, `^bytes\.Equal$`)
+				type eqSite struct {
+					fn   *ssa.Function
+					call ssa.CallInstruction
+					at   *ssa.Call // call of the helper in f, nil when the comparison is in f itself
+				}
+				var eqs []eqSite
+				for _, e := range eng.Calls(f, `^bytes\.Equal$`) {
+					eqs = append(eqs, eqSite{f, e, nil})
+				}
+				for _, h := range skipHelpers {
+					for _, e := range eng.Calls(h.Call.Call.StaticCallee(), `^bytes\.Equal$`) {
+						eqs = append(eqs, eqSite{h.Call.Call.StaticCallee(), e, h.Call})
+					}
+				}
+				// is this certificate value the one parsed from the record (directly, or as the helper's argument)?
+				isRecord := func(es eqSite, b ssa.Value) bool {
+					if ok, _, _ := eng.OriginsMatch(b, `^call:crypto/x509\.ParseCertificate#0$`); ok {
+						return true
+					}
+					if pa, isParam := b.(*ssa.Parameter); isParam && es.at != nil {
+						for i, fp := range es.fn.Params {
+							if fp == pa && i < len(es.at.Call.Args) {
+								ok, _, _ := eng.OriginsMatch(es.at.Call.Args[i], `^call:crypto/x509\.ParseCertificate#0$`)
+								return ok
+							}
+						}
+					}
+					return false
+				}
 				if c.Floor(f, "bytes.Equal deciding the issuer-certificate skip", len(eqs), 1) {
-					for _, e := range eqs {
+					for _, es := range eqs {
+						e, f := es.call, es.fn
 						site := "issuer-certificate skip compares whole certificates"
 						a := e.Common().Args
 						if len(a) != 2 {
@@ -1508,8 +1675,8 @@ func c16Builder(c *eng.Ctx, V string) {
 							c.Violation(f, site, e.Pos(), "the skip compares "+eng.ExprDeep(a[0])+" with "+eng.ExprDeep(a[1])+": both operands must be the Raw (complete DER) field of an x509.Certificate, anything narrower (serial, subject) also matches certificates that are not the issuer itself", nil)
 							continue
 						}
-						p0, _, _ := eng.OriginsMatch(b0, `^call:crypto/x509\.ParseCertificate#0$`)
-						p1, _, _ := eng.OriginsMatch(b1, `^call:crypto/x509\.ParseCertificate#0$`)
+						p0 := isRecord(es, b0)
+						p1 := isRecord(es, b1)
 						if p0 != p1 {
 							c.OK(f, site, e.Pos(), eng.Expr(a[0])+" vs "+eng.Expr(a[1]))
 						} else {
